@@ -66,6 +66,9 @@ class Schema:
         required nor defaulted, or a user type / object."""
         a = self.resolve(att)
         t = a.get("type", {})
+        if att.get("type", {}).get("ref") and t.get("prim") and t["prim"] not in ("Bytes", "Any"):
+            # an alias of a primitive is stored like the primitive: a value when required or defaulted
+            return name not in self.required(parent) and not att.get("has_default") and not a.get("has_default")
         if att.get("type", {}).get("ref") or t.get("is_object") or t.get("object") or t.get("one_of"):
             return True
         if t.get("prim") and t["prim"] not in ("Bytes", "Any"):
